@@ -7,7 +7,7 @@ from opaque arguments); the cells of the input space are enumerated by absint.en
 """
 import ast
 
-from .absint import (Interp, Node, Obj, NeedAtom, DomainGrew, Budget, _Raise, _Return, C_NONE, OTHER, show, enumerate_cells,
+from .absint import (clone_value, Interp, Node, Obj, NeedAtom, DomainGrew, Budget, _Raise, _Return, C_NONE, OTHER, show, enumerate_cells,
                      count_effects, flat_effects, deps_of)
 from .layers import LayerRunner, symbolic_node, LAYERS
 from .stackmodel import default_layers, flatten, FLAGS
@@ -31,6 +31,7 @@ class GroupSim:
             self.all_layers = layers
         self.layer_classes = layer_classes
         self.par = repo.cls(LAYERS, "YowParallelLayer")
+        self._templates = {}
         self.msgattrs = None
         for c in repo.by_simple.get("MessageAttributes", []):
             self.msgattrs = c
@@ -54,6 +55,14 @@ class GroupSim:
                     o.fields["_" + k] = ("lazy", kind_field(k))
                 o.fields["_sender_key_distribution_message"] = ("lazy", lambda itp: ("ext", "payload:skdm", a) if itp.ask(ATOM_SKDM) else C_NONE)
                 return ("obj", o)
+        def opaque_serialise(it, recv, args, kwargs, env, depth, e):
+            """the entity handed to the stack from above: its serialisation is irrelevant for routing counts, only its
+            identity matters (C06.eqser); the content of serialisers is C09's"""
+            if recv[0] == "obj" and recv[1] is getattr(it, "input_entity", None):
+                n = Node(recv[1].fields.get("tag", ("unset", "tag")), None)
+                n.made_by = (recv[1], "toProtocolTreeNode")
+                return ("node", n)
+        h["method:toProtocolTreeNode"] = opaque_serialise
         h["method:protobytes_to_message"] = payload_message
         h["method:proto_to_message"] = payload_message
         return h
@@ -64,10 +73,17 @@ class GroupSim:
         return it
 
     def make_group(self, it, classes=None):
+        """group object built by interpreting YowParallelLayer(<classes>) once; every run gets a private clone"""
         classes = classes if classes is not None else self.layer_classes
-        g = it.construct(self.par, [("list", [("cls", c) for c in classes])], {}, {"@module": self.par.module, "@owner": None}, 0, None)
+        key = tuple(c.qname for c in classes)
+        if key not in self._templates:
+            it0 = self.new_interp({}, {})
+            g0 = it0.construct(self.par, [("list", [("cls", c) for c in classes])], {}, {"@module": self.par.module, "@owner": None}, 0, None)
+            self._templates[key] = (g0, dict(it0.class_attrs))
+        g0, ca = self._templates[key]
+        it.class_attrs.update(ca)
         it.effects[:] = []
-        return g
+        return clone_value(g0, {})
 
     # ------------------------------------------------------------------ receive side
     def receive(self, tag, cell, domains, classes=None, node=None):
@@ -95,7 +111,7 @@ class GroupSim:
             ps = [a.arg for a in init.args.args][1:]
             nd = len(init.args.defaults)
             req = ps[: len(ps) - nd] if nd else ps
-            args = [("fn", "arg:" + p, []) for p in req]
+            args = [("atom", ("E", p)) for p in req]
         ent = it.construct(cls, args, {}, {"@module": cls.module, "@owner": None}, 0, None)
         it.effects[:] = []
         return ent
@@ -111,6 +127,7 @@ class GroupSim:
             res["effects"] = []
             return res, it
         k, m = self.repo.find_method(g[1].cls, "send")
+        it.input_entity = ent[1] if ent[0] == "obj" else None
         try:
             it.call_function(m, k, g, [ent], {}, depth=0)
         except _Raise as r:
